@@ -58,6 +58,22 @@ pub fn rt(args: &[&str]) -> String {
         _ => "SKIP".into(),
     }
 }
+/// RTV <bundle> -> OK MEM T|F WIRE (OK T|F | ERR): crc_valid of the bundle just encoded and of its decoded wire image
+pub fn rtv(args: &[&str]) -> String {
+    let mut t = Toks::new(args);
+    match parse_bundle(&mut t) {
+        Some(mut b) if t.done() => {
+            let bytes = b.to_cbor();
+            let mem = b.crc_valid();
+            let wire = match Bundle::try_from(bytes.as_slice()) {
+                Ok(mut d) => format!("OK {}", show_bool(d.crc_valid())),
+                Err(_) => "ERR".into(),
+            };
+            format!("OK MEM {} WIRE {}", show_bool(mem), wire)
+        }
+        _ => "SKIP".into(),
+    }
+}
 /// SPEC <bundle> -> OK x<bytes of to_cbor>   (the model side prints the RFC 9171 specification encoding)
 pub fn spec(args: &[&str]) -> String {
     let mut t = Toks::new(args);
